@@ -25,7 +25,7 @@ GetOK(x, o) ==
         /\ x.issued[k].at <= o.t1                                           \* not from the future
         /\ o.t0 < x.issued[k].end \/ (o.t0 - 1000 < x.issued[k].end /\ x.issued[k].end <= o.t1 + 1000)    \* valid (1 s resolution: ambiguous near the end)
 \* ---- requests are well formed ------------------------------------------------------------------------------------------------
-Cfg(x) == [etypes |-> x.cfg.etypes, forwardable |-> x.cfg.forwardable, proxiable |-> x.cfg.proxiable, canonicalize |-> x.cfg.canonicalize,
+Cfg(x) == [etypes |-> x.cfg.etypes, tgsEtypes |-> x.cfg.tgsEtypes, forwardable |-> x.cfg.forwardable, proxiable |-> x.cfg.proxiable, canonicalize |-> x.cfg.canonicalize,
            renewable |-> x.cfg.renewable, ticketLife |-> x.cfg.ticketLife, renewLife |-> x.cfg.renewLife, noaddresses |-> x.cfg.noaddresses]
 Req(x, k) == LET r == x.reqs[k]  b == x.optbits[k] IN
              [kind |-> r.kind, etypes |-> r.etypes, fwd |-> b.fwd, prx |-> b.prx, canon |-> b.canon, renewableOpt |-> b.renewable,
